@@ -10,7 +10,7 @@
 import core
 import realcode as R
 
-ALPHABET = list('()[]{}"\'`#/*\\\n a;,:3|') + ['"""', '/*', '*/', '# c\n', '""', "\\'", 'x == "a"', '\x01']
+ALPHABET = list('()[]{}"\'`#/*\\\n a;,:3|\t ') + ['"""', '/*', '*/', '# c\n', '""', "\\'", 'x == "a"', '\x01']
 
 
 def random_string(rng):
@@ -67,6 +67,10 @@ def run(ck, texts, n_random, cpp=True):
     if real['events'] != m['py']:
       k = next((i for i, (a, b) in enumerate(zip(real['events'], m['py'])) if a != b), min(len(real['events']), len(m['py'])))
       ck.disagreement('traverse-vs-model', inp, real['events'][k:k + 2], m['py'][k:k + 2])
+    if not any(ch.isspace() and ch not in ' \n\t\r\x0b\x0c' for ch in t):
+      ck.corr('stripspaces-vs-model')
+      if str(R.parse.StripSpaces(t)) != m['strip_spaces']:
+        ck.disagreement('stripspaces-vs-model', inp, str(R.parse.StripSpaces(t)), m['strip_spaces'])
     mrc = {k: v for k, v in m['py_rc'].items() if k != 'idx'}
     if real['rc'] != mrc:
       ck.disagreement('removecomments-vs-model', inp, real['rc'], mrc)
